@@ -6,7 +6,7 @@ func init() {
 	register(&propSpec{
 		ID:    "C05",
 		Rules: []func(*Ctx){ruleR05a, ruleR05b, ruleR05f, ruleR05g, ruleR05h, ruleR05i, ruleR05j, ruleR05k, ruleR05l, ruleR15h, func(c *Ctx) { ruleLockPairing(c, "R09e") }},
-		Explain: "R05a: every scanner loop that reads input is evaluated with each rune read yielding eof (the source predicates are evaluated on that one constant) and must leave within a bounded unrolling;  R05g: for each read site in turn, when that read yields eof no manual rewind of the scanner position follows before another read; R05h: every manual rewind is by the recorded width, a constant, or inside the start guard (anything else is undecided)." +
+		Explain: "R05a: every scanner loop that reads input is evaluated with each rune read yielding eof (the source predicates are evaluated on that one constant) and must leave within a bounded unrolling;  R05g: for each read site in turn, when that read yields eof no manual rewind of the scanner position follows before another read; R05h: every manual rewind is by the recorded width, a constant, or inside the start guard (anything else is undecided). R05l: the parser's loops that read no input are counted loops or recognised bounded idioms. R15h: the line joiner cannot outgrow its buffer by re-encoding." +
 			"R05b: every parser loop that reads tokens is evaluated with reads yielding the closed-channel item / EOF / error item and must leave (return, break, or a raising call); " +
 			"R05f: the scanner's end-of-input state transition graph is acyclic and ends in nil. R05i: a computed slice bound (e+K) on the string parameter of the parser's string helpers is dominated by a test of that very bound against the length. R05h also: a backward scan of the position stops at the token start; R05j: a constant-position read of an input string or token list is dominated by a test that the position exists; R05k: a table indexed by a rune excludes the negative end-of-input sentinel. R09e: every mutex locked in the module is unlocked on every returning path. R05i also covers constant bounds.",
 		NotDecided: "the linear time bound, and the absence of runtime-error panics (index/nil faults), which parse's recover deliberately re-panics.",
@@ -28,7 +28,7 @@ func init() {
 	register(&propSpec{
 		ID:         "C02",
 		Rules:      []func(*Ctx){ruleR02a, ruleR02b, ruleR02c, ruleR02d, ruleR02e, ruleR02g, ruleR02h, ruleR02i, ruleR02j, ruleR02k, ruleR02m, ruleR02n, ruleR01g, ruleR07e, ruleR20f, ruleR15f, ruleR15h, func(c *Ctx) { ruleR07j(c, "R02l", []string{"soyhtml"}, 15) }},
-		Explain:    "R02a: push/pop pairing of the renderer's scope in every soyhtml function (go/cfg dataflow over relative depth, raising paths exempt); R02b: every AST field the parser fills from a command body (derived from parse, not listed) is walked inside its own frame, or the *ast.ListNode case brackets its elements; R02c: scope-frame typestate (set only on renderer-allocated frames, new states only get entered scopes, capped data=\"all\" view); R02d: the loop helper functions look up exactly the key suffixes the loop sets. R02e/R02f: a called template is walked on a newly built state and every {param} kind binds its key on every non-raising path; R02g: a command-body field is only handed to the tree walker or compared with nil, never taken apart by hand; R02h: every state built for a template sets the fields the entry state sets. R02i: the alias table is read with the part of the name before its first dot; R02j: scope.lookup returns a binding exactly when the frame has the key (comma-ok) and inspects the last frame first; R02k: with a component present every completing path of the {css} arm evaluates the dash (finite-domain evaluation); R02l: every arm of the recursive walker that handles a node type by hand mentions each node-holding field of that type. R02m: the renderer's writer is redirected only to a buffer declared fresh in that function, or restored; R01g: sizes handed to make cannot be negative (range()). R02n: nothing is bound in a callee's scope after its explicit params; R07e: the checker brings a {let} into scope after its own definition.",
+		Explain:    "R02a: push/pop pairing of the renderer's scope in every soyhtml function (go/cfg dataflow over relative depth, raising paths exempt); R02b: every AST field the parser fills from a command body (derived from parse, not listed) is walked inside its own frame, or the *ast.ListNode case brackets its elements; R02c: scope-frame typestate (set only on renderer-allocated frames, new states only get entered scopes, capped data=\"all\" view); R02d: the loop helper functions look up exactly the key suffixes the loop sets. R02e/R02f: a called template is walked on a newly built state and every {param} kind binds its key on every non-raising path; R02g: a command-body field is only handed to the tree walker or compared with nil, never taken apart by hand; R02h: every state built for a template sets the fields the entry state sets. R02i: the alias table is read with the part of the name before its first dot; R02j: scope.lookup returns a binding exactly when the frame has the key (comma-ok) and inspects the last frame first; R02k: with a component present every completing path of the {css} arm evaluates the dash (finite-domain evaluation); R02l: every arm of the recursive walker that handles a node type by hand mentions each node-holding field of that type. R02m: the renderer's writer is redirected only to a buffer declared fresh in that function, or restored; R01g: sizes handed to make cannot be negative (range()). R02n: nothing is bound in a callee's scope after its explicit params; R07e: the checker brings a {let} into scope after its own definition. R20f: {switch} and == compare numbers numerically across int and float. R15f/R15h: raw text: the line joiner's character classifiers accept one-byte characters only, and it never re-encodes a character it decoded.",
 		NotDecided: "the rendered text of each command; call-name resolution through namespace/alias; header-param folding.",
 		Assumes:    []string{"go/cfg control flow; no-return functions inferred from the source (panic closure)"},
 	})
@@ -38,7 +38,7 @@ func init() {
 	register(&propSpec{
 		ID:         "C09",
 		Rules:      []func(*Ctx){ruleR09a, ruleR08b, ruleR08d, ruleR09b, ruleR09c, ruleR09d, ruleR09f, ruleR19n, func(c *Ctx) { ruleLockPairing(c, "R09e") }},
-		Explain:    "R09a: the C08 effect analysis over every concurrent entry (render, JS generation; for parse/compile entries: package-state writes only) - no shared-memory write means no race among them; R08b: scope-frame freshness typestate; R09b: lexer fields written by the scanner goroutine and touched by the parser are disjoint except the channel; R09c: run closes the channel on every exit; R09d: no goroutine is started on the render path. R08d as under C08. R09e: every mutex locked is unlocked on every returning path.",
+		Explain:    "R09a: the C08 effect analysis over every concurrent entry (render, JS generation; for parse/compile entries: package-state writes only) - no shared-memory write means no race among them; R08b: scope-frame freshness typestate; R09b: lexer fields written by the scanner goroutine and touched by the parser are disjoint except the channel; R09c: run closes the channel on every exit; R09d: no goroutine is started on the render path. R08d as under C08. R09e: every mutex locked is unlocked on every returning path. R09f: the methods of every soymsg.Bundle implementation write no shared memory. R19n: no goroutine literal in a loop reads the loop's variables.",
 		NotDecided: "schedules as such are not explored; third-party writers, bundles and callbacks; Bundle.recompiler (WatchFiles), which upstream documents as not goroutine-safe.",
 		Assumes:    []string{"absence of shared writes is the sufficient condition for race freedom used here", "VTA call graph (CHA in thorough)", "channel operations synchronise"},
 	})
@@ -48,7 +48,7 @@ func init() {
 	register(&propSpec{
 		ID:         "C12",
 		Rules:      []func(*Ctx){ruleR12, ruleR06a, ruleR19c, ruleR08d, ruleR02e, ruleR02m},
-		Explain:    "R12: error discipline on SSA: every call reachable from Renderer.Execute that writes to an io.Writer-typed operand (Write, io.WriteString, fmt.Fprint*) must have its error tested with the failing branch raising (errorf/panic) or returning it to callers that do; in-memory buffers (*bytes.Buffer by construction) are exempt. R06a: the entry converts the raise into its returned error. Since every failed write raises and emission is sequential, the accepted bytes are a prefix and nil is returned only if every write succeeded. Handling is path-complete: from the write no return is reachable without a branch on the error value. R08d: no buffer pool or other stateful library object in a package variable is used while rendering (leftover bytes of a failed render would precede the next one's output). R02e: a called template runs on its own state (the recover handler positions the error with the entry state's template).",
+		Explain:    "R12: error discipline on SSA: every call reachable from Renderer.Execute that writes to an io.Writer-typed operand (Write, io.WriteString, fmt.Fprint*) must have its error tested with the failing branch raising (errorf/panic) or returning it to callers that do; in-memory buffers (*bytes.Buffer by construction) are exempt. R06a: the entry converts the raise into its returned error. Since every failed write raises and emission is sequential, the accepted bytes are a prefix and nil is returned only if every write succeeded. Handling is path-complete: from the write no return is reachable without a branch on the error value. R08d: no buffer pool or other stateful library object in a package variable is used while rendering (leftover bytes of a failed render would precede the next one's output). R02e: a called template runs on its own state (the recover handler positions the error with the entry state's template). R02m: the writer is redirected only to a fresh in-memory buffer, never to a wrapper around the caller's writer (whose flush error could be lost).",
 		NotDecided: "writers that violate the io.Writer contract (short write without error).",
 		Assumes:    []string{"io.Writer contract", "VTA call graph for reachability"},
 	})
@@ -78,7 +78,7 @@ func init() {
 	register(&propSpec{
 		ID:         "C06",
 		Rules:      []func(*Ctx){ruleR06a, ruleR06b, ruleR06c, ruleR06d, ruleR06e, ruleR06f, ruleR02e, ruleR05i, ruleR05k, ruleR19h, ruleR06g, ruleR06i, func(c *Ctx) { ruleConstIndexGuards(c, "R06h", "", 0) }},
-		Explain:    "R06a: every exported soyhtml entry that can reach the tree walker defers the recover handler (with its named error) first, and the handler assigns the error on every recovered path; R06b: the handler's own call tree (errRecover, errorf, errFromNode, callAnnotation, Registry.Filename/LineNumber/ColNumber, NewErrFilePosf) contains no unguarded nil dereference of a field, slice bound, index or single-value type assertion; R06c: Registry.Add rejects an already-registered template name before recording it; R06d: every non-range loop reachable from a render entry is a counted loop with a fixed-sign step or a sign guard; R06e: code that runs before/outside the recover contains no explicit raise except named exceptions; R06f: user callbacks (Func.Apply, PrintDirective.Apply) are invoked only under a recover. R02e/R02f (shared with C02): callee state and unconditional param binding, on which the termination of recursive templates with inherited data rests. R05i: the string helper cuts a unicode escape only after testing the bound. R06c covers every table of the registry that its look-up functions read. R05k: the scanner's character predicates do not fault on the end-of-input sentinel; R19h: no position look-up selects a file by name. R06g: no static call cycle among the methods of the scalar value types; R06h: constant-position reads in the root package (the globals reader) are guarded.",
+		Explain:    "R06a: every exported soyhtml entry that can reach the tree walker defers the recover handler (with its named error) first, and the handler assigns the error on every recovered path; R06b: the handler's own call tree (errRecover, errorf, errFromNode, callAnnotation, Registry.Filename/LineNumber/ColNumber, NewErrFilePosf) contains no unguarded nil dereference of a field, slice bound, index or single-value type assertion; R06c: Registry.Add rejects an already-registered template name before recording it; R06d: every non-range loop reachable from a render entry is a counted loop with a fixed-sign step or a sign guard; R06e: code that runs before/outside the recover contains no explicit raise except named exceptions; R06f: user callbacks (Func.Apply, PrintDirective.Apply) are invoked only under a recover. R02e/R02f (shared with C02): callee state and unconditional param binding, on which the termination of recursive templates with inherited data rests. R05i: the string helper cuts a unicode escape only after testing the bound. R06c covers every table of the registry that its look-up functions read. R05k: the scanner's character predicates do not fault on the end-of-input sentinel; R19h: no position look-up selects a file by name. R06g: no static call cycle among the methods of the scalar value types; R06h: constant-position reads in the root package (the globals reader) are guarded. R06i: the tree walker is never handed a node variable that may still be unset (forward may-analysis on the CFG).",
 		NotDecided: "data-bounded recursion (excluded by the property); faults inside user callbacks beyond the recover wrapper; exhaustion of memory by legitimately large data.",
 		Assumes:    []string{"fmt recovers panics raised by String()/Error() methods it calls", "positions stored in parse-tree nodes are non-negative"},
 	})
@@ -88,7 +88,7 @@ func init() {
 	register(&propSpec{
 		ID:         "C19",
 		Rules:      []func(*Ctx){ruleR19a, ruleR19b, ruleR19c, ruleR19d, ruleR19e, ruleR19f, ruleR19g, ruleR19h, ruleR19i, ruleR19j, ruleR19k, ruleR19l, ruleR19m, ruleR19n, ruleR06c, ruleR02e},
-		Explain:    "R19a: every parser is created with the input's name; parse failures are raised only through the positioned constructor (bare panics are internal markers); message prefix and File/Line/Col come from the same expressions and line/column from one offset; R19b: unexpected(token) positions every raise at that token's own offset and expect passes the token it read; R19c: errFromNode looks up file, line and column with one template name and the state's current node, errRecover only produces such errors, and a callee's failure propagates to the caller's state; R19d: a nested parse is given its position base. R19e: value-returning helpers that walk an operand on the same state (eval, renderBlock) restore the current-node mark on every returning path; R19f: the scanner's error item is positioned at the current scan offset, unconditionally. R19g: the parser's recover handlers re-panic only runtime errors unchanged, everything else leaves through the positioned constructor; R06c: the position tables are stored under keys just found absent, so a template's file and text are never another file's. R19h: nothing in the registry selects a file by its name (names may repeat); R19i: the scanner runs on, and the tree records, the text exactly as given; R19j: the entry state writes to the caller's writer itself. R19k: no printf-like call gets a format assembled at run time (a '%' in a file name would be read as a verb); R19l: parser and renderer count lines as 1 + the number of newline characters; R02e: a called template runs on its own state.",
+		Explain:    "R19a: every parser is created with the input's name; parse failures are raised only through the positioned constructor (bare panics are internal markers); message prefix and File/Line/Col come from the same expressions and line/column from one offset; R19b: unexpected(token) positions every raise at that token's own offset and expect passes the token it read; R19c: errFromNode looks up file, line and column with one template name and the state's current node, errRecover only produces such errors, and a callee's failure propagates to the caller's state; R19d: a nested parse is given its position base. R19e: value-returning helpers that walk an operand on the same state (eval, renderBlock) restore the current-node mark on every returning path; R19f: the scanner's error item is positioned at the current scan offset, unconditionally. R19g: the parser's recover handlers re-panic only runtime errors unchanged, everything else leaves through the positioned constructor; R06c: the position tables are stored under keys just found absent, so a template's file and text are never another file's. R19h: nothing in the registry selects a file by its name (names may repeat); R19i: the scanner runs on, and the tree records, the text exactly as given; R19j: the entry state writes to the caller's writer itself. R19k: no printf-like call gets a format assembled at run time (a '%' in a file name would be read as a verb); R19l: parser and renderer count lines as 1 + the number of newline characters; R02e: a called template runs on its own state. R19m: the template of a state is set in state literals only; R19n: no goroutine literal in a loop reads the loop's variables (a file parsed under another file's name).",
 		NotDecided: "the arithmetic of lineNumber/columnNumber (that the numbers are right for a given offset).",
 		Assumes:    []string{"token offsets recorded by the scanner are offsets of the construct concerned"},
 	})
@@ -101,7 +101,7 @@ func init() {
 			func(c *Ctx) {
 				runEffects(c, "R13d", renderEntries, false, map[string]string{"(soyhtml.scope).set mapupdate": "scope-frame typestate (R08b)"})
 			}, ruleR10g, ruleR08d, ruleR19h, ruleR13f, ruleR13g, ruleR13h, ruleR19n},
-		Explain:    "R13a: every range over a map in the functions reachable from compile, JS generation and render entries (plus every String() of ast/data/parse) is order-insensitive: it only stores under the range key, updates the element itself, counts, tests existence, or collects into a slice that is sorted before use; R13b: no reachable read of clock, environment or random source (randomInt excepted by specification); R13c: no package-state write on the compile side (so one compile cannot influence the next); R13d: generating JavaScript or rendering does not modify the compiled bundle (C08's effect analysis), so a second generation from the same registry emits the same bytes. Sorting counts only when it is a total order on the elements (sort.Strings/Ints/Float64s, slices.Sort, or sort.Slice comparing the elements themselves). R10g: the id computation has no input but the message node. R08d: no pooled or otherwise shared library object is used while rendering; R19h: the registry selects nothing by (non-unique) file name, so results do not depend on the order files were added. R13f: no value whose elements are pointers without a String method is formatted into a message; R13g: the bundle builder adopts no collection of its caller.",
+		Explain:    "R13a: every range over a map in the functions reachable from compile, JS generation and render entries (plus every String() of ast/data/parse) is order-insensitive: it only stores under the range key, updates the element itself, counts, tests existence, or collects into a slice that is sorted before use; R13b: no reachable read of clock, environment or random source (randomInt excepted by specification); R13c: no package-state write on the compile side (so one compile cannot influence the next); R13d: generating JavaScript or rendering does not modify the compiled bundle (C08's effect analysis), so a second generation from the same registry emits the same bytes. Sorting counts only when it is a total order on the elements (sort.Strings/Ints/Float64s, slices.Sort, or sort.Slice comparing the elements themselves). R10g: the id computation has no input but the message node. R08d: no pooled or otherwise shared library object is used while rendering; R19h: the registry selects nothing by (non-unique) file name, so results do not depend on the order files were added. R13f: no value whose elements are pointers without a String method is formatted into a message; R13g: the bundle builder adopts no collection of its caller. R13h: no goroutine literal of the root package assigns a captured variable (first-error-wins races). R19n: no goroutine literal in a loop reads the loop's variables.",
 		NotDecided: "insertion-order semantics (which of two files defining a name wins, which of several independent errors is reported first).",
 		Assumes:    []string{"library functions listed as pure do not depend on map order", "VTA call graph for reachability"},
 	})
@@ -113,7 +113,7 @@ func init() {
 		Rules: []func(*Ctx){ruleR10a, ruleR10b, ruleR10c, ruleR10d, ruleR10f, ruleR10g, ruleR10i, ruleR10j, ruleR10k, ruleR10l, ruleR17a, ruleR15h, func(c *Ctx) {
 			ruleR07iFor(c, func(k string) bool { return strings.Contains(k, "Msgs") || strings.HasPrefix(k, "soymsg") }, 2, 2)
 		}, func(c *Ctx) { ruleR07j(c, "R07j", []string{"parsepasses", "soymsg"}, 5) }},
-		Explain:    "R10a: no range over a map on the id / placeholder-name path is order-sensitive (K6); R10b: of ast.MsgNode the id computation reads only Body and Meaning, reads no source position, and reads only package variables that are never written after init (SSA field-read sets over the reachable functions); R10c: ids and placeholder names are assigned only in soymsg, which is called only from the compile pass and the extractor. R10d: the suffix-collision test consults the base-name table; R10e: all plural bodies are fingerprinted with braced placeholders. R10f: two placeholders share a name only when their complete printed text is equal; R10g: calcID, setPlaceholderNames and SetPlaceholdersAndID take the message node and nothing else; R10i: the hash's block loop and tail switch partition the input (a case for every residual length); R07i/R07j: the message pass prunes no parent node and, where it descends by hand, mentions every node-holding field. R10j: underscore runs in placeholder names are collapsed by a whole-run pattern, not by a fixed-width replace. R10k: each arm of parseDataRef builds access nodes of one kind; R17a: operator printers parenthesise operator operands (printed text is what placeholders are compared by).",
+		Explain:    "R10a: no range over a map on the id / placeholder-name path is order-sensitive (K6); R10b: of ast.MsgNode the id computation reads only Body and Meaning, reads no source position, and reads only package variables that are never written after init (SSA field-read sets over the reachable functions); R10c: ids and placeholder names are assigned only in soymsg, which is called only from the compile pass and the extractor. R10d: the suffix-collision test consults the base-name table; R10e: all plural bodies are fingerprinted with braced placeholders. R10f: two placeholders share a name only when their complete printed text is equal; R10g: calcID, setPlaceholderNames and SetPlaceholdersAndID take the message node and nothing else; R10i: the hash's block loop and tail switch partition the input (a case for every residual length); R07i/R07j: the message pass prunes no parent node and, where it descends by hand, mentions every node-holding field. R10j: underscore runs in placeholder names are collapsed by a whole-run pattern, not by a fixed-width replace. R10k: each arm of parseDataRef builds access nodes of one kind; R17a: operator printers parenthesise operator operands (printed text is what placeholders are compared by). R10l: the parser keeps no table of nodes (every occurrence gets its own node). R15h: message text is copied byte for byte.",
 		NotDecided: "numeric agreement of fingerprint/hash32 with the official algorithm; the exact placeholder names the official algorithm would choose.",
 		Assumes:    []string{"VTA call graph for reachability"},
 	})
@@ -125,7 +125,7 @@ func init() {
 		Rules: []func(*Ctx){ruleR14, ruleR14b, ruleR14d, ruleR14e, ruleR14g, ruleR08d, ruleR15f, ruleR15h, func(c *Ctx) {
 			runEffects(c, "R14f", renderEntries, false, map[string]string{"(soyhtml.scope).set mapupdate": "scope-frame typestate (R08b)"})
 		}},
-		Explain:    "R14: SSA taint over every function of soyjs with parameter summaries to a fixpoint: values loaded from the free-text fields (raw text, string literal values, map-literal keys, css suffix, message html tags, catalogue text, file name) must reach the output (Writer.Write, fmt.Fprint*, JSWriter.Write, the generator's own js/jsln) only through text/template.JSEscape / JSEscapeString. R14b: free text is not cut at byte offsets before it is escaped; R14c: the generator never reads StringNode.Quoted. strconv.Quote is not accepted as a JavaScript escaper. R14d: no position inside a name is recovered by searching the name for one of its own pieces. R14e: Generator.WriteFile takes the file node from the registry's current file list on every call. R14f: generating JavaScript writes into no shared tree node or data (the effect analysis of C08 over the generator's entries).",
+		Explain:    "R14: SSA taint over every function of soyjs with parameter summaries to a fixpoint: values loaded from the free-text fields (raw text, string literal values, map-literal keys, css suffix, message html tags, catalogue text, file name) must reach the output (Writer.Write, fmt.Fprint*, JSWriter.Write, the generator's own js/jsln) only through text/template.JSEscape / JSEscapeString. R14b: free text is not cut at byte offsets before it is escaped; R14c: the generator never reads StringNode.Quoted. strconv.Quote is not accepted as a JavaScript escaper. R14d: no position inside a name is recovered by searching the name for one of its own pieces. R14e: Generator.WriteFile takes the file node from the registry's current file list on every call. R14f: generating JavaScript writes into no shared tree node or data (the effect analysis of C08 over the generator's entries). R14g: the Generator stores nothing between calls; R08d: no pool or other shared state in the generator; R15f/R15h: raw text reaches the generator byte for byte.",
 		NotDecided: "syntactic validity of the whole generated file; one function per template under its qualified name; identifier-class fields (template, parameter and variable names), which the scanner restricts to letters, digits and underscore.",
 		Assumes:    []string{"text/template.JSEscape is a correct JavaScript string escaper (it escapes quotes, backslash, <, >, &, = and every non-printable rune including U+2028/9)"},
 	})
@@ -137,7 +137,7 @@ func init() {
 		Rules: []func(*Ctx){ruleR07a, func(c *Ctx) { ruleR07bFor(c, true, false) }, ruleR07c, ruleR07d, ruleR07e, ruleR07f, ruleR07g, ruleR07k, ruleR07l, ruleR07m, ruleR07n, ruleR07o, ruleR07p, func(c *Ctx) {
 			ruleR07iFor(c, func(k string) bool { return strings.HasPrefix(k, "parsepasses.templateChecker") }, 1, 4)
 		}, func(c *Ctx) { ruleR07j(c, "R07j", []string{"parsepasses"}, 3, "parsepasses.templateChecker") }, func(c *Ctx) { ruleBlocks(c, "R07c-blocks", "soyhtml", 8) }},
-		Explain:    "R07a: on every success path Compile has parsed and registered every file and run CheckDataRefs, SetGlobals and ProcessMessages, and honours each error (go/cfg must-pass + SSA error discipline); R07b: the node kinds that bind a name agree between the compile-time checker, the Go renderer and the JavaScript generator, and data references are checked; R07c: every node-typed field of every AST node type is returned by its Children(), so no reference escapes the tree passes; the interpreter ends a {let} at least as early as the checker assumes (block frames); R07d: the one-declaration-mechanism test precedes recording a template. R07e: the checker brings a binder into scope exactly where the language does (a {let} after its own definition, a loop variable for the loop body only). R07f: at scope exit the checker's stacks are read only from the mark taken at scope entry (helpers included); R07g: names passed under data=all come from the declared params; R07i: the checker prunes no parent node; R07j: arms that descend by hand mention every node-holding field; R07k: a reference is recorded as a param use only after the locals in scope were searched; R07l: a constant flag set under a condition inside a loop and recorded in the item built there is not declared outside the loop; R07m: a template's soydoc is the node just before it or a fresh one. R07n: parseTernary returns the node holding the condition and both branches on every path (nothing is folded away before the checker runs). R07c also: list fields are returned element for element by Children(); R07o: both forms of {let} are tested against the name ij.",
+		Explain:    "R07a: on every success path Compile has parsed and registered every file and run CheckDataRefs, SetGlobals and ProcessMessages, and honours each error (go/cfg must-pass + SSA error discipline); R07b: the node kinds that bind a name agree between the compile-time checker, the Go renderer and the JavaScript generator, and data references are checked; R07c: every node-typed field of every AST node type is returned by its Children(), so no reference escapes the tree passes; the interpreter ends a {let} at least as early as the checker assumes (block frames); R07d: the one-declaration-mechanism test precedes recording a template. R07e: the checker brings a binder into scope exactly where the language does (a {let} after its own definition, a loop variable for the loop body only). R07f: at scope exit the checker's stacks are read only from the mark taken at scope entry (helpers included); R07g: names passed under data=all come from the declared params; R07i: the checker prunes no parent node; R07j: arms that descend by hand mention every node-holding field; R07k: a reference is recorded as a param use only after the locals in scope were searched; R07l: a constant flag set under a condition inside a loop and recorded in the item built there is not declared outside the loop; R07m: a template's soydoc is the node just before it or a fresh one. R07n: parseTernary returns the node holding the condition and both branches on every path (nothing is folded away before the checker runs). R07c also: list fields are returned element for element by Children(); R07o: both forms of {let} are tested against the name ij. R07p: the accounting of one template starts empty (fresh checker per template, or every collection field reassigned).",
 		NotDecided: "that acceptance is exact for every program: of the checker's own algorithm the scoping and accounting discipline is decided (R07e-R07m); the reconciliation of required and passed params and the comparison of names are value-level and not decided.",
 		Assumes:    []string{"go/cfg control flow", "the tree passes visit exactly what Children() returns"},
 	})
@@ -147,7 +147,7 @@ func init() {
 	register(&propSpec{
 		ID:         "C01",
 		Rules:      []func(*Ctx){ruleR01a, ruleR01b, ruleR01c, ruleR01d, ruleR01e, ruleR01f, ruleR01g, ruleR01h, ruleR01i, ruleR01j, ruleR01k, ruleR01l, ruleR01m, ruleR07c, ruleR20f, func(c *Ctx) { ruleR07iFor(c, func(k string) bool { return strings.Contains(k, "Globals") }, 1, 0) }},
-		Explain:    "R01a: every token that can start an expression (evaluated over all token kinds) starts an implicit print; R01b: lexNegative evaluated for every token kind that can precede '-' agrees with the language partition (subtraction exactly after a complete operand); R01c: each operator's pipeline (scanner symbol, operator class, precedence entry, node constructor, Go and JS cases) is complete, the relative precedence order of all operator pairs equals the language table and binary operators are left-associative; R01d: every node type the parser builds has an evaluator case or a named parent; R01e: each operator case of the Go evaluator applies the language's operator to (Arg1, Arg2) in order, the ternary and ?: select as defined; R01f: built-in functions exist with the language's arities; R07c: Children() completeness (so globals are set on every GlobalNode). R20f: Int and Float are compared as float64 in both directions. R01g: every size handed to make in the renderer is non-negative by construction or guarded; R07i: the globals pass prunes no node type that has children. R01h: the value-node constructor, evaluated on each number spelling the scanner accepts (decimal, hexadecimal, plain and exponent floats; strconv folded on the constant text), returns a node on some path; R01i: map-literal keys are unescaped strings (a parsed string's Value or unquoteString); R01j: an undefined expression value fails the print before any directive is applied. R01k: hexadecimal escapes are decoded with a bit size admitting 0xFFFF; R01l: a null-safe access on a missing value returns null for the whole reference.",
+		Explain:    "R01a: every token that can start an expression (evaluated over all token kinds) starts an implicit print; R01b: lexNegative evaluated for every token kind that can precede '-' agrees with the language partition (subtraction exactly after a complete operand); R01c: each operator's pipeline (scanner symbol, operator class, precedence entry, node constructor, Go and JS cases) is complete, the relative precedence order of all operator pairs equals the language table and binary operators are left-associative; R01d: every node type the parser builds has an evaluator case or a named parent; R01e: each operator case of the Go evaluator applies the language's operator to (Arg1, Arg2) in order, the ternary and ?: select as defined; R01f: built-in functions exist with the language's arities; R07c: Children() completeness (so globals are set on every GlobalNode). R20f: Int and Float are compared as float64 in both directions. R01g: every size handed to make in the renderer is non-negative by construction or guarded; R07i: the globals pass prunes no node type that has children. R01h: the value-node constructor, evaluated on each number spelling the scanner accepts (decimal, hexadecimal, plain and exponent floats; strconv folded on the constant text), returns a node on some path; R01i: map-literal keys are unescaped strings (a parsed string's Value or unquoteString); R01j: an undefined expression value fails the print before any directive is applied. R01k: hexadecimal escapes are decoded with a bit size admitting 0xFFFF; R01l: a null-safe access on a missing value returns null for the whole reference. R01m: a line of a globals file is cut only where its '=' was found.",
 		NotDecided: "every value-level clause: integer/float arithmetic results, string/number formatting, truthiness and equality values, literal decoding, function results, 'undefined is an error'.",
 		Assumes:    []string{"the frozen language tables in the checker (operator levels, operand-ending tokens, function arities) transcribe the Soy language reference"},
 	})
@@ -157,7 +157,7 @@ func init() {
 	register(&propSpec{
 		ID:         "C04",
 		Rules:      []func(*Ctx){ruleR04a, ruleR04b, ruleR04c, ruleR04d, func(c *Ctx) { ruleBlockUse(c, "R04d-use", "soyjs") }, ruleR04f, ruleR04g, ruleR03c, ruleR03g, ruleR02k, ruleR04j, ruleR04k, ruleR04l, ruleR04n, ruleR04o, ruleR04p, ruleR04q, ruleR04r, ruleR04s, ruleR20f, ruleR14g, ruleR01l, func(c *Ctx) { ruleR07j(c, "R04i", []string{"soyjs"}, 5) }, ruleR11a, ruleR11d, ruleR11f, ruleR02h, func(c *Ctx) { ruleR07bFor(c, false, true) }, ruleR04m},
-		Explain:    "Sibling cross-check of the two backends: R04a node-kind case sets agree (named exceptions); R04b function tables (names, argument counts), loop functions and print-directive tables (names, CancelAutoescape) agree; R04d the generator's scope push/pop is paired and every command body gets its own frame; R04c every expression emitter (walk cases and function-table emitters) is linearised by evaluating its emit calls path by path, parsed as a JavaScript expression template in which child slots are atoms, and for each operand slot every type-compatible child emitter must bind at least as tightly as the slot requires (and must not start with '-' directly after a '-'); R04f each operator node emits the JavaScript operator the language maps it to, operands in order; R04g visitPrint (evaluated over mode x cancel flag) wraps the value in escapeHtml exactly when the Go renderer escapes; R11a message parts are handled by both backends; R07b binder kinds agree. R04d-use: command-body fields are only handed to the generator's walker; R11d/R11e/R02h: catalogue loading and translated-text handling agree between the backends. R04i: generator arms mention every node-holding field; R03c/R03g/R04j: the escape tables of the renderer and of the JavaScript runtime (soyjs/lib/soyutils.js, read on every run) agree; R04k: directives apply first to last in both backends with the implicit escapeHtml outermost; R04l: loop counters are recorded and looked up under the loop variable's name; R04m: scope methods that add a binding update the same fields; R02k: the {css} dash; R11f: placeholder nodes are looked up in the message being rendered. R04n: the generator binds a loop variable around the loop body only (list expression, range arguments and ifempty belong to the enclosing scope); R04o: generated null tests are loose (== null), never strict. R04p: truncate makes room for the ellipsis under the same threshold as the JavaScript runtime; R04q: the message bundle is kept and handed on as the caller gave it; R01l: the null-safe short circuit ends the whole reference, as the generated guard does. R04r: directives that add markup (insertWordBreaks, changeNewlineToBr) are given the escaped value in the generated JavaScript, as the Go directives escape inside; R04s: the Go word-break loop, evaluated over probe texts with character references, breaks exactly where the runtime's state machine does (a reference counts as one character and is never split).",
+		Explain:    "Sibling cross-check of the two backends: R04a node-kind case sets agree (named exceptions); R04b function tables (names, argument counts), loop functions and print-directive tables (names, CancelAutoescape) agree; R04d the generator's scope push/pop is paired and every command body gets its own frame; R04c every expression emitter (walk cases and function-table emitters) is linearised by evaluating its emit calls path by path, parsed as a JavaScript expression template in which child slots are atoms, and for each operand slot every type-compatible child emitter must bind at least as tightly as the slot requires (and must not start with '-' directly after a '-'); R04f each operator node emits the JavaScript operator the language maps it to, operands in order; R04g visitPrint (evaluated over mode x cancel flag) wraps the value in escapeHtml exactly when the Go renderer escapes; R11a message parts are handled by both backends; R07b binder kinds agree. R04d-use: command-body fields are only handed to the generator's walker; R11d/R11e/R02h: catalogue loading and translated-text handling agree between the backends. R04i: generator arms mention every node-holding field; R03c/R03g/R04j: the escape tables of the renderer and of the JavaScript runtime (soyjs/lib/soyutils.js, read on every run) agree; R04k: directives apply first to last in both backends with the implicit escapeHtml outermost; R04l: loop counters are recorded and looked up under the loop variable's name; R04m: scope methods that add a binding update the same fields; R02k: the {css} dash; R11f: placeholder nodes are looked up in the message being rendered. R04n: the generator binds a loop variable around the loop body only (list expression, range arguments and ifempty belong to the enclosing scope); R04o: generated null tests are loose (== null), never strict. R04p: truncate makes room for the ellipsis under the same threshold as the JavaScript runtime; R04q: the message bundle is kept and handed on as the caller gave it; R01l: the null-safe short circuit ends the whole reference, as the generated guard does. R04r: directives that add markup (insertWordBreaks, changeNewlineToBr) are given the escaped value in the generated JavaScript, as the Go directives escape inside; R04s: the Go word-break loop, evaluated over probe texts with character references, breaks exactly where the runtime's state machine does (a reference counts as one character and is never split). R20f: numeric equality across int and float (the generated == is numeric). R14g: the Generator keeps nothing between calls, so it follows a registry changed in place as the renderer does.",
 		NotDecided: "anything inside soyutils.js; number formatting; mixed-type equality; statement-level structure of the generated file.",
 		Assumes:    []string{"the frozen operator mapping Soy -> JavaScript in the checker"},
 	})
@@ -169,7 +169,7 @@ func init() {
 		Rules: []func(*Ctx){ruleR11a, ruleR11b, ruleR11c, ruleR11d, ruleR11f, ruleR11g, ruleR11h, ruleR11i, ruleR10f, ruleR02h, ruleR10c, ruleR10i, func(c *Ctx) {
 			ruleR07iFor(c, func(k string) bool { return strings.Contains(k, "Msgs") || strings.HasPrefix(k, "soymsg") }, 2, 2)
 		}},
-		Explain:    "R11a: every kind of soymsg.Part that the module constructs has a non-empty case in both backends' part renderers; R11b: the reference keys the extractor writes (id=, var=) are exactly those the catalogue loader reads, the loader skips exactly the tested prefix, and the msgid writer's { } placeholder syntax matches the reader's pattern; R11c: placeholders and plural variables are looked up and printed by the very fields the naming pass assigns (Name, VarName); R10c: those fields are assigned only by the naming pass. R11d: the loader's per-entry variables are declared inside the loop over catalogue entries; R11e: translated text is written raw, as source raw text is; R02h: a called template's state carries the message bundle. R11f: the node rendered for a placeholder is the direct result of the Placeholder look-up on the message being rendered, in both backends. R11g: the bundle keeps the catalogue's own plural rule and applies it to the number itself; R10f: placeholders merge only on equal complete printed text. R11h: the functions rendering a message's source form never read the bundle; the message pass prunes no node type that has children (R07i).",
+		Explain:    "R11a: every kind of soymsg.Part that the module constructs has a non-empty case in both backends' part renderers; R11b: the reference keys the extractor writes (id=, var=) are exactly those the catalogue loader reads, the loader skips exactly the tested prefix, and the msgid writer's { } placeholder syntax matches the reader's pattern; R11c: placeholders and plural variables are looked up and printed by the very fields the naming pass assigns (Name, VarName); R10c: those fields are assigned only by the naming pass. R11d: the loader's per-entry variables are declared inside the loop over catalogue entries; R11e: translated text is written raw, as source raw text is; R02h: a called template's state carries the message bundle. R11f: the node rendered for a placeholder is the direct result of the Placeholder look-up on the message being rendered, in both backends. R11g: the bundle keeps the catalogue's own plural rule and applies it to the number itself; R10f: placeholders merge only on equal complete printed text. R11h: the functions rendering a message's source form never read the bundle; the message pass prunes no node type that has children (R07i). R11i: the extractor gives every catalogue entry exactly one id= reference. R10i: the fingerprint covers the whole text.",
 		NotDecided: "the round-trip equality of rendered text, plural selection per locale, fallback to source text (all quantify over catalogue contents and data); that distinct placeholders print distinct source text (C17).",
 		Assumes:    []string{"the gettext/po library splits references at whitespace"},
 	})
@@ -179,14 +179,14 @@ func init() {
 	register(&propSpec{
 		ID:         "C15",
 		Rules:      []func(*Ctx){ruleR15a, ruleR15b, ruleR15c, ruleR15d, ruleR15e, ruleR15f, ruleR15g, ruleR15h, ruleR14b},
-		Explain:    "R15a: the special-character commands, composed scanner table -> text table, emit exactly the language's characters, and every special-character token has a text entry handled where a tag begins; R15b: the RawTextNode built for {literal} takes its text verbatim from the token and the one for special characters from the table, while every other RawTextNode's text passes the line-joining normaliser (or is a slice of normalised text). R15c: Registry.Add takes exactly the collected header params out of a template body; R14b: the JavaScript writer never cuts raw text at a byte offset. R15d: a template file's text is the bytes read from it; R15e: the compile passes write into no byte slice they did not create.",
+		Explain:    "R15a: the special-character commands, composed scanner table -> text table, emit exactly the language's characters, and every special-character token has a text entry handled where a tag begins; R15b: the RawTextNode built for {literal} takes its text verbatim from the token and the one for special characters from the table, while every other RawTextNode's text passes the line-joining normaliser (or is a slice of normalised text). R15c: Registry.Add takes exactly the collected header params out of a template body; R14b: the JavaScript writer never cuts raw text at a byte offset. R15d: a template file's text is the bytes read from it; R15e: the compile passes write into no byte slice they did not create. R15f: the character classifiers used where characters are counted and bytes copied accept one-byte characters only; R15g: a search for a line end looks for the carriage return too; R15h: no decoded character is re-encoded.",
 		NotDecided: "the line-joining rule itself (the bulk of the property): it is a seven-flag state machine over arbitrary strings inside rawtext(); a change inside that loop, or in the scanner's comment recognition, is NOT detected by this check.",
 		Assumes:    []string{"the language table of special-character commands in the checker"},
 	})
 	register(&propSpec{
 		ID:         "C20",
 		Rules:      []func(*Ctx){ruleR20a, ruleR20b, ruleR20c, ruleR20d, ruleR20f, ruleR20g, ruleR20h, ruleR20i, ruleR08d},
-		Explain:    "R20a: no comparison against math.NaN(); R20b: the pairs of value kinds that Equals can accept form a symmetric relation that includes Int~Float; R20c: the reflect-kind switch of the conversion covers every kind the statement lists, unwraps pointers/interfaces, returns on nil before use, recognises time.Time before structs and nil slices before indexing; R20d: each Truthy is a single expression over the receiver and, evaluated on sample constants, follows the language table (null, false, 0, 0.0, NaN, \"\" falsy). R20f: the cross-kind arms of Int.Equals and Float.Equals compare both values as float64. R20g: strings in package data are cut only at rune boundaries known by provenance (0, len, size of a decoded rune); R20h: no function of package data depends on map iteration order. R08d: no cache in a package variable or a synchronised container is consulted during conversion.",
+		Explain:    "R20a: no comparison against math.NaN(); R20b: the pairs of value kinds that Equals can accept form a symmetric relation that includes Int~Float; R20c: the reflect-kind switch of the conversion covers every kind the statement lists, unwraps pointers/interfaces, returns on nil before use, recognises time.Time before structs and nil slices before indexing; R20d: each Truthy is a single expression over the receiver and, evaluated on sample constants, follows the language table (null, false, 0, 0.0, NaN, \"\" falsy). R20f: the cross-kind arms of Int.Equals and Float.Equals compare both values as float64. R20g: strings in package data are cut only at rune boundaries known by provenance (0, len, size of a decoded rune); R20h: no function of package data depends on map iteration order. R08d: no cache in a package variable or a synchronised container is consulted during conversion. R20i: the scalar arms of the converter use Go conversions only (no round trip through text).",
 		NotDecided: "scalar fidelity of the conversion, idempotence, lowerCamel field names, equality of values (only the acceptance relation is decided), printing.",
 		Assumes:    []string{"the language's truthiness table in the checker"},
 	})
@@ -194,11 +194,11 @@ func init() {
 
 func init() {
 	register(&propSpec{
-		ID:         "C17",
-		Rules:      []func(*Ctx){ruleR17a, ruleR17b, ruleR17c, ruleR17d, ruleR17f, ruleR17g, ruleR01b, ruleR01a, ruleR17i, ruleR17j, func(c *Ctx) {
+		ID: "C17",
+		Rules: []func(*Ctx){ruleR17a, ruleR17b, ruleR17c, ruleR17d, ruleR17f, ruleR17g, ruleR01b, ruleR01a, ruleR17i, ruleR17j, func(c *Ctx) {
 			ruleFormatArgs(c, "R17k", []string{"ast"}, 5, "a '%' in the text of an operand (the modulo operator, a string literal) is read as a formatting verb, and the printed source no longer parses to the same expression")
 		}},
-		Explain:    "R17a: every operand slot of every operator printer (the node kinds the parser's operator constructors build, derived on each run) is printed through a wrapper whose parenthesising type list covers all operator kinds, so no operand can re-associate with its context; R17b: map-literal keys are printed through a function that escapes backslash and quote; R17c: no printing or Children() method depends on map iteration order; R17d/R17e: the unary minus is printed apart from its operand and integral floats keep a decimal point. R17f: the printer's string quoting and the parser's unquoting are inverse tables (each escape reads back, other characters written as themselves, no unbounded unicode escape); R01b: the scanner reads a minus after every operand-ending token as subtraction. R17g: the scanner's exponent accepts both signs the float printer writes; R01a: every token that can start an expression starts an implicit print (the printed form of a print command). R17i: a data reference prints each access through that node's own String().",
+		Explain:    "R17a: every operand slot of every operator printer (the node kinds the parser's operator constructors build, derived on each run) is printed through a wrapper whose parenthesising type list covers all operator kinds, so no operand can re-associate with its context; R17b: map-literal keys are printed through a function that escapes backslash and quote; R17c: no printing or Children() method depends on map iteration order; R17d/R17e: the unary minus is printed apart from its operand and integral floats keep a decimal point. R17f: the printer's string quoting and the parser's unquoting are inverse tables (each escape reads back, other characters written as themselves, no unbounded unicode escape); R01b: the scanner reads a minus after every operand-ending token as subtraction. R17g: the scanner's exponent accepts both signs the float printer writes; R01a: every token that can start an expression starts an implicit print (the printed form of a print command). R17i: a data reference prints each access through that node's own String(). R17j: a literal becomes a node only if strconv converted it without error; R17k: no printer of package ast hands operand text to a printf-like function as the format.",
 		NotDecided: "the formatting of numeric literals beyond the decimal point rule (exponents, precision); that separators inside the non-operator printers (function arguments, list items, directive arguments) cannot be confused, which holds by their bracket/comma structure but is not computed here.",
 		Assumes:    []string{"an expression in parentheses parses to the same tree as the expression"},
 	})
